@@ -83,6 +83,21 @@ def boundFacts (fs : List Expr) (lhs : Expr) (nb : IR) : Option (List Expr) :=
     some fs
   | _, _, _ => none
 
+/-- one fact of `bcheckAssignmentMaxMin`: `lhs <= operand` (`>=` for max), recorded only
+if the assignment cannot change the operand's value and `lhs` still denotes the assigned
+location afterwards (REPAIRED rule, fixes/C01-minmax-facts-aliasing-store.patch: the
+unrepaired code tested `operand.Mentions(lhs)` only, see
+`Props.C01.minmax_alias_witness`) -/
+def minMaxFact (fs : List Expr) (lhs : Expr) (op : BOp) (x : Expr) : List Expr :=
+  if mentionsLHS lhs x || idxReads lhs then fs else appendFact fs (.binary op lhs x)
+
+/-- `bcheckAssignmentMaxMin`: after `lhs = a.min(no_more_than: b)` the facts `lhs <= a`,
+`lhs <= b` (`>=` for max), receiver first -/
+def minMaxFacts (fs : List Expr) (lhs : Expr) : Expr → List Expr
+  | .binary .bmin a b => minMaxFact (minMaxFact fs lhs .le a) lhs .le b
+  | .binary .bmax a b => minMaxFact (minMaxFact fs lhs .ge a) lhs .ge b
+  | _ => fs
+
 /-- is `nb` within the bounds of the destination type? (`bcheckAssignment1`) -/
 def fitsType (t : Ty) (nb : IR) : Bool :=
   match typeBounds t, nb.lo, nb.hi with
@@ -134,8 +149,8 @@ def checkStmt (fs : List Expr) : Stmt → Option (List Expr)
       if !fitsType (typeOf lhs) rb then none else
       let fs1 := dropLHS fs lhs
       if !isNumBase (typeOf lhs).base then some fs1 else
-      let fs2 := if mentionsLHS lhs rhs || idxReads lhs then fs1
-        else appendFact fs1 (.binary .eq lhs rhs)
+      let fs2 := minMaxFacts (if mentionsLHS lhs rhs || idxReads lhs then fs1
+        else appendFact fs1 (.binary .eq lhs rhs)) lhs rhs
       if idxReads lhs then some fs2 else
       match rhs with
       | .const _ => some fs2
